@@ -117,6 +117,11 @@ func runC08(c *Ctx) {
 			add("targeted", []byte(t))
 		}
 	})
+	if c.Quick() {
+		parserModelCases(c, items, 8000)
+	} else {
+		parserModelCases(c, items, 80000)
+	}
 	// expected outputs from the specification for the spec examples (core, unsafe)
 	specHTML := map[string]string{}
 	for _, e := range loadSpec() {
@@ -182,6 +187,11 @@ func runC09(c *Ctx) {
 			add("targeted", []byte(t))
 		}
 	})
+	if c.Quick() {
+		parserModelCases(c, items, 8000)
+	} else {
+		parserModelCases(c, items, 80000)
+	}
 	var pool [][]byte
 	for _, it := range items {
 		if !bytes.ContainsAny(it.doc, "[\r") && !isBlankDoc(it.doc) {
